@@ -66,7 +66,8 @@ class Ctx:
         self._cookies = {}
         self.pad_rate = 0.12
         self._pad_rng = random.Random(seed * 7919 + shard)
-        self.crash_is_violation = prop in MUST_ANSWER
+        # C20: a frame whose handling aborts leaves 'recv' events without their terminal events
+        self.crash_is_violation = prop in MUST_ANSWER or prop == "C20"
 
     # ---- driver life cycle --------------------------------------------------
     def driver(self):
@@ -265,7 +266,7 @@ class Ctx:
                 self._universal_hit("C03", e.split(" ")[0], e, f, hist_upto, r)
             for e in monitors.wellformed(r.reply):
                 self._universal_hit("C04", e.split(" ")[0], e, f, hist_upto, r)
-                if self.crash_is_violation and self.prop != "C04" and e.split(" ")[0] in DISCARDED_BY_RECEIVER:
+                if self.prop in MUST_ANSWER and e.split(" ")[0] in DISCARDED_BY_RECEIVER:
                     # for the must-answer properties: a frame whose checksum or length fields are wrong is discarded by
                     # the receiving stack, so the request was not answered
                     self.violation("unusable_answer:" + e.split(" ")[0], "the answer is a frame every receiver discards (%s): the request is in effect "
